@@ -266,7 +266,11 @@ fn main() {
     let rec = Recorder::new("C07", if replay_only.is_some() { &[] } else { &known });
     let mut out = RunOutput::new("model_checking");
     let deadline = start + Duration::from_secs_f64(wall_cap_s(&tier));
-    let (bound_a, budget_a) = if tier == "quick" { (1usize, 400u64) } else { (2usize, 30_000u64) };
+    // stage A runs in passes of growing deviation bound (every call gets the lower bound before any call gets the
+    // higher one); each pass has its own share of the wall budget so that stages B-D always run
+    let cap = wall_cap_s(&tier);
+    let passes: Vec<(usize, u64, Instant)> = if tier == "quick" { vec![(1usize, 400u64, start + Duration::from_secs_f64(cap * 0.6))] } else { vec![(1usize, 3_000u64, start + Duration::from_secs_f64(cap * 0.25)), (2usize, 30_000u64, start + Duration::from_secs_f64(cap * 0.6))] };
+    let mut bound_done = 0usize;
 
     // ---------------- stage A: production threshold, deviation-bounded schedules
     let inputs = large_inputs(&tier);
@@ -274,6 +278,8 @@ fn main() {
     let mut r0: BTreeMap<(String, String), u64> = BTreeMap::new();
     let (mut schedules, mut ooo, mut distinct_max) = (0u64, 0u64, 0usize);
     let mut capped = false;
+    for &(bound_a, budget_a, deadline_a) in &passes {
+    let mut pass_capped = false;
     for inp in &inputs {
         let cs = calls(inp);
         for (ci, (cname, f)) in cs.iter().enumerate() {
@@ -284,12 +290,17 @@ fn main() {
                 }
             }
             // stage A is thinned in the quick tier: every call on the first inputs, then a rotating subset
-            if tier == "quick" && replay_only.is_none() && (ci + inputs.iter().position(|x| x.name == inp.name).unwrap_or(0)) % 3 != 0 {
+            let big = inp.g.number_of_nodes() > 100;
+            if !big && tier == "quick" && replay_only.is_none() && (ci + inputs.iter().position(|x| x.name == inp.name).unwrap_or(0)) % 3 != 0 {
                 continue;
             }
-            if Instant::now() > deadline {
+            if Instant::now() > deadline_a {
                 capped = true;
+                pass_capped = true;
                 break;
+            }
+            if big && bound_a > 1 {
+                continue; // big inputs are explored in the first pass only
             }
             sched::set_num_threads(1);
             let serial = match guarded(|| f()) {
@@ -304,7 +315,8 @@ fn main() {
             let before = sched::parallel_calls();
             let mut outcomes: BTreeSet<u64> = BTreeSet::new();
             let mut first_bad: Option<(Vec<usize>, Result<u64, PanicInfo>)> = None;
-            let st = explore_schedules(bound_a, budget_a, &|| f(), &mut |r, prefix| {
+            // big inputs: the default schedule and the first few one-deviation schedules only (reported as truncated)
+            let st = explore_schedules(bound_a, if big { if tier == "quick" { 6 } else { 40 } } else { budget_a }, &|| f(), &mut |r, prefix| {
                 match &r {
                     Ok(d) => {
                         outcomes.insert(*d);
@@ -328,6 +340,9 @@ fn main() {
             distinct_max = distinct_max.max(outcomes.len());
             if st.truncated {
                 out.add("calls_truncated_by_budget", 1);
+                if !big {
+                    pass_capped = true;
+                }
             }
             if let Some((prefix, r)) = first_bad {
                 let detail = match &r {
@@ -340,12 +355,17 @@ fn main() {
                 }
                 rec.record(v);
             }
-            model_digests.insert((inp.name.clone(), cname.clone()), outcomes);
+            model_digests.entry((inp.name.clone(), cname.clone())).or_default().extend(outcomes);
         }
+    }
+    if !pass_capped {
+        bound_done = bound_a;
+    }
     }
     out.set("stageA_inputs", inputs.len() as u64);
     out.set("stageA_schedules", schedules);
-    out.set("stageA_deviation_bound", bound_a as u64);
+    out.set("stageA_deviation_bound_attempted", passes.last().unwrap().0 as u64);
+    out.set("stageA_deviation_bound_completed_for_every_call", bound_done as u64);
 
     // ---------------- stage B: small graphs, forced parallel path, ALL schedules
     let fams: Vec<Family> = if tier == "quick" {
@@ -364,7 +384,7 @@ fn main() {
     let sb = Mutex::new((0u64, 0u64, 0usize)); // schedules, out of order, max distinct
     if replay_only.as_deref().map_or(true, |c| c.starts_with("g:")) {
         for f in fams {
-            for_each_graph(&f, seed, deadline, &stats, |b, _c| {
+            for_each_graph(&f, seed, start + Duration::from_secs_f64(cap * 0.85), &stats, |b, _c| {
                 if let Some(rc) = &replay_only {
                     if !rc.starts_with(&b.case) {
                         return 0;
